@@ -13,7 +13,7 @@ from engine.runner import jnum, unj, active_regions
 ID = 'C03'
 ENGINE = 'PYSYM + IRSYM'
 TECHNIQUE = 'symbolic execution of the real Python / C (LLVM IR) kernels with a symbolic threshold; SMT queries against the unbounded oracle; QF_FP query for the sqrt/square round trip (z3)'
-BUDGET = {'quick': 420, 'thorough': 3000}
+BUDGET = {'quick': 420, 'thorough': 1800}
 SOURCES = ['src/dtaidistance/dtw.py', 'src/dtaidistance/ed.py', 'src/dtaidistance/innerdistance.py',
            'src/DTAIDistanceC/DTAIDistanceC/dd_dtw.c', 'src/DTAIDistanceC/DTAIDistanceC/dd_ed.c']
 FUNCTIONS = ['dtw.distance (max_dist, use_pruning)', 'dtw.warping_paths (max_dist: returned distance)',
